@@ -48,6 +48,8 @@ def strategy(tier, unit):
             "adp_present": st.sampled_from([True, True, True, False]), "occ_present": st.booleans(),
             "mult_key": st.integers(0, 2), "type_loop": st.sampled_from(["none", "disp", "nodisp"]),
             "disp": st.lists(st.tuples(num(), num()).map(list), min_size=12, max_size=12),
+            "how": st.sampled_from(["path", "path", "path+blockname", "open-then-read(cifblk)", "open-then-read()", "open(blockname)-then-read()"]),
+            "colperm": st.integers(0, 10 ** 6),
             "global": st.booleans(), "blockname": st.from_regex(r"[a-z][a-z0-9]{0,6}", fullmatch=True).filter(lambda s: s != "global")})
     atom = st.fixed_dictionaries({
         "el": st.integers(0, 93), "frac": st.one_of(st.tuples(S.fl(0.02, 0.98), S.fl(0.02, 0.98), S.fl(0.02, 0.98)).map(list), st.just([0.0, 0.0, 0.0])),
@@ -148,7 +150,15 @@ def write_cif(case):
         cols.append("_atom_site_occupancy")
     if mk:
         cols.append(mk)
-    L += ["loop_"] + cols
+    # the order of the data names inside a loop is free in CIF: permute the columns (and every row accordingly)
+    perm = list(range(len(cols)))
+    k_ = case.get("colperm", 0)
+    for i_ in range(len(perm) - 1, 0, -1):
+        j_ = k_ % (i_ + 1)
+        k_ //= (i_ + 1)
+        perm[i_], perm[j_] = perm[j_], perm[i_]
+    L += ["loop_"] + [cols[i_] for i_ in perm]
+    first_row_index = len(L)
     aniso = []
     eatoms = []
     any_esd = any(n[2] is not None for n in case["cell"])
@@ -194,7 +204,7 @@ def write_cif(case):
             row.append(str(a["mult"]))
             e["symmulti"] = float(a["mult"])
         eatoms.append(e)
-        L.append(" ".join(row))
+        L.append(" ".join(row[i_] for i_ in perm))
     if aniso:
         hasU = any(x[1] == "Uani" for x in aniso)
         hasB = any(x[1] == "Bani" for x in aniso)
@@ -261,7 +271,21 @@ def check_cif(case, ctx, tmp):
     ctx.event("cif/type-loop:" + case["type_loop"])
     GR.touch_sibling(case["sgno"], "standard")
     b = structure.build_atomlist()
-    b.CIFread(p)
+    how = case.get("how", "path")
+    if how == "path":
+        b.CIFread(p)
+    elif how == "path+blockname":
+        b.CIFread(p, cifblkname=case["blockname"])
+    elif how == "open-then-read(cifblk)":
+        blk = b.CIFopen(ciffile=p)
+        b.CIFread(cifblk=blk)
+    elif how == "open(blockname)-then-read()":
+        b.CIFopen(ciffile=p, cifblkname=case["blockname"])
+        b.CIFread()
+    else:
+        b.CIFopen(ciffile=p)
+        b.CIFread()
+    ctx.event("cif/call:" + how)
     al = b.atomlist
     show = text if len(text) < 1500 else text[:1500] + "..."
     if list(al.cell) != exp["cell"]:
